@@ -477,14 +477,23 @@ def strip_impl(o):
 F_OVERLAP = "C04-overlap-identity"
 F_CLEAR = "C04-clear-while-suspended"
 F_PPID = "C04-reuse-check-skips-pid"
+F_L19 = "C04-flagged-pid-skipped"
 
 
-def regions(hist, impl_outs, reuse_attrs):
+class Rows(list):
+    """rows of one executed history + per step: did an iteration start while the model's
+    `_pids_reused` was non-empty (printed by the driver)"""
+    flags = ()
+
+
+def regions(hist, impl_outs, reuse_attrs, flags=()):
     """finding ids whose region the history (up to its end) lies in. Computed from the ops and the
     implementation's own outcomes: a generator is suspended from its first yield until stop /
     exception / close."""
     susp = set()
     reg = set()
+    if any(flags[:len(hist)]):
+        reg.add(F_L19)
     gattrs = []
     spawned = {}
     reused_pid = False
@@ -540,7 +549,8 @@ def run_histories(ctx, impl, hists):
         impl.reset()
         impl.gen_attrs = [o["attrs"] for o in h if o["op"] == "iter"]
         cm, cs = Canon(), Canon()
-        rows = []
+        rows = Rows()
+        flags = []
         for o in h:
             m = outs[i]
             i += 1
@@ -548,6 +558,8 @@ def run_histories(ctx, impl, hists):
                 raise InfraError("driver rejected %r: %s" % (o, m))
             io = impl.do(o)
             rows.append((o, io, cm.out(m["model"]), cs.out(m["spec"])))
+            flags.append(bool(m.get("flagged_start")))
+        rows.flags = flags
         res.append(rows)
     return res, len(lines)
 
@@ -569,7 +581,7 @@ def judge(rows, reuse_attrs, known_ids):
         im = strip_impl(io)
         model_ok = (im == mo) and lowest_ok(io, mo)
         if so is not None and not spec_diverged and im != so:
-            reg = regions(hist[:i + 1], impls[:i + 1], reuse_attrs) & known_ids
+            reg = regions(hist[:i + 1], impls[:i + 1], reuse_attrs, getattr(rows, "flags", ())) & known_ids
             if reg and model_ok:
                 spec_diverged = True          # recorded defective behaviour inside a known region
                 yield ("finding", i, sorted(reg)[0], "inside the region of a known finding")
